@@ -134,7 +134,7 @@ def typed_terms(edges, types, perm=None, shuffle_seed=None, exclude=None):
         if shuffle_seed is not None:
             rnd = random.Random(shuffle_seed + 1)
             for name in ('angles', 'dihedrals'):
-                arr = [tuple(t) for t in getattr(a, name)]
+                arr = [tuple(t) if rnd.random() < 0.5 else tuple(t)[::-1] for t in getattr(a, name)]     # a term written backwards is the same term
                 rnd.shuffle(arr)
                 setattr(a, name, np.array(arr) if arr else np.array(arr).reshape(0, 3 if name == 'angles' else 4))
         ex = None if exclude is None else {perm[x] for x in exclude}
